@@ -18,13 +18,13 @@ def big_field_chain(r, coin, sizes):
 
 def explore(ck):
     r = ck.rng; quick = ck.tier == 'quick'
-    ck.rule = ('chains written XOR-ed with keys of length 1..64 (8 most often; lengths 3,5,6,7,12,13 always present; all-zero keys, keys with one zero byte, keys whose first 8 bytes are zero and the rest not) and as plaintext; layouts with out-of-order blocks '
+    ck.rule = ('chains written XOR-ed with keys of length 1..256 (8 most often; 64 always; lengths 3,5,6,7,12,13 always present; all-zero keys, keys with one zero byte, keys whose first 8 bytes are zero and the rest not) and as plaintext; layouts with out-of-order blocks '
                '(backward seeks), offsets not multiples of the key length, block starts at 32768*k +- {0,1,3}, single fields of 32768/40000/70000/131073 bytes followed by further fields, '
                'and a block beyond 4 GiB (sparse) with non-power-of-two key lengths; outputs of all five callbacks of the obfuscated directory = plaintext directory = model. '
                'Plus in-process: XorReader over seek_bufread::BufReader with arbitrary buffer sizes and short-read patterns vs the Coq mirror (Reader.v). '
                'Non-trivial: key present and (>= 1 backward seek or a field >= 32 KiB or an offset >= 4 GiB); distinct by (layout kind, key length).')
     cases = []
-    keylens = [1, 2, 3, 4, 5, 6, 7, 8, 8, 8, 9, 12, 13, 16, 31, 32, 64]
+    keylens = [1, 2, 3, 4, 5, 6, 7, 8, 64, 8, 9, 12, 13, 16, 31, 32, 63, 65, 100, 255, 256]
     n = 14 if quick else 90
     for i in range(n):
         coin = gen.ALL_COINS[i % 8]; kl = keylens[i % len(keylens)]
